@@ -482,6 +482,7 @@ static int ec_edit(char *loc, char *cmd, char *arg, char *txt)
 	char msg[128];
 	char *path;
 	int fd;
+	int rd = 0, fresh;
 	if (!strchr(cmd, '!'))
 		if (xb && !xwa && bufs_modified(0, "buffer modified"))
 			return 1;
@@ -498,11 +499,12 @@ static int ec_edit(char *loc, char *cmd, char *arg, char *txt)
 			return ex_command(pls + 1);
 		return 0;
 	}
-	if (path[0] || !bufs[0].path)
+	fresh = path[0] || !bufs[0].path;
+	if (fresh)
 		bufs_switch(bufs_open(path));
 	fd = open(ex_path(), O_RDONLY);
 	if (fd >= 0) {
-		int rd = lbuf_rd(xb, fd, 0, lbuf_len(xb));
+		rd = lbuf_rd(xb, fd, 0, lbuf_len(xb));
 		close(fd);
 		snprintf(msg, sizeof(msg), "\"%s\"  [=%d]  [r]",
 				ex_path(), lbuf_len(xb));
@@ -511,7 +513,9 @@ static int ec_edit(char *loc, char *cmd, char *arg, char *txt)
 		else
 			ex_show(msg);
 	}
-	lbuf_saved(xb, path[0] != '\0');
+	/* a reload that failed did not bring the file's content into the buffer */
+	if (fd >= 0 ? !rd : fresh)
+		lbuf_saved(xb, path[0] != '\0');
 	bufs[0].mtime = mtime(ex_path());
 	xrow = MAX(0, MIN(xrow, lbuf_len(xb) - 1));
 	xoff = 0;
